@@ -227,26 +227,20 @@ func c16Envelope(c *core.Ctx) {
 	if fd := p.Func("", "", "NewEnvelope"); fd != nil {
 		info := fd.Pkg.TypesInfo
 		hdr, sigs := false, false
-		ast.Inspect(fd.Decl.Body, func(n ast.Node) bool {
-			as, ok := n.(*ast.AssignStmt)
-			if !ok || len(as.Lhs) != 1 {
-				return true
-			}
-			if f := core.FieldOf(info, as.Lhs[0]); f != nil {
-				if call, ok := ast.Unparen(as.Rhs[0]).(*ast.CallExpr); ok {
-					fn := core.Callee(info, call)
-					if f.Name() == "Head" && fn != nil && fn.Name() == "NewHeader" {
-						hdr = true
-					}
-					if id, isID := call.Fun.(*ast.Ident); f.Name() == "Signatures" && isID && id.Name == "make" {
-						if tv, ok := info.Types[call.Args[1]]; ok && tv.Value != nil && tv.Value.String() == "0" {
-							sigs = true
-						}
+		for _, fs := range fieldStores(info, fd.Decl.Body) {
+			f := fs.field
+			if call, ok := ast.Unparen(fs.value).(*ast.CallExpr); ok {
+				fn := core.Callee(info, call)
+				if f.Name() == "Head" && fn != nil && fn.Name() == "NewHeader" {
+					hdr = true
+				}
+				if id, isID := call.Fun.(*ast.Ident); f.Name() == "Signatures" && isID && id.Name == "make" && len(call.Args) > 1 {
+					if tv, ok := info.Types[call.Args[1]]; ok && tv.Value != nil && tv.Value.String() == "0" {
+						sigs = true
 					}
 				}
 			}
-			return true
-		})
+		}
 		c.Ob("C16-R1", fd.Name()+"#fresh-header-no-signatures", fd.Decl.Pos(), hdr && sigs, "a new envelope does not get a new header and an empty signature list")
 	} else {
 		c.Ob("C16-R1", "UNRESOLVED:NewEnvelope", token.NoPos, false, "function not found")
@@ -254,25 +248,18 @@ func c16Envelope(c *core.Ctx) {
 	if fd := p.Func("head", "", "NewHeader"); fd != nil {
 		info := fd.Pkg.TypesInfo
 		uuidNew, stampsSet := false, false
-		ast.Inspect(fd.Decl.Body, func(n ast.Node) bool {
-			as, ok := n.(*ast.AssignStmt)
-			if !ok || len(as.Lhs) != 1 {
-				return true
-			}
-			if f := core.FieldOf(info, as.Lhs[0]); f != nil {
-				if f.Name() == "UUID" {
-					if call, ok := ast.Unparen(as.Rhs[0]).(*ast.CallExpr); ok {
-						if fn := core.Callee(info, call); fn != nil && fn.Pkg() != nil && fn.Pkg().Path() == core.ModPath+"/uuid" && strings.HasPrefix(fn.Name(), "V") {
-							uuidNew = true
-						}
+		for _, fs := range fieldStores(info, fd.Decl.Body) {
+			if fs.field.Name() == "UUID" {
+				if call, ok := ast.Unparen(fs.value).(*ast.CallExpr); ok {
+					if fn := core.Callee(info, call); fn != nil && fn.Pkg() != nil && fn.Pkg().Path() == core.ModPath+"/uuid" && strings.HasPrefix(fn.Name(), "V") {
+						uuidNew = true
 					}
 				}
-				if f.Name() == "Stamps" {
-					stampsSet = true
-				}
 			}
-			return true
-		})
+			if fs.field.Name() == "Stamps" {
+				stampsSet = true
+			}
+		}
 		c.Ob("C16-R1", fd.Name()+"#new-uuid-no-stamps", fd.Decl.Pos(), uuidNew && !stampsSet, "a new header does not get a freshly generated identifier, or carries stamps")
 	} else {
 		c.Ob("C16-R1", "UNRESOLVED:head.NewHeader", token.NoPos, false, "function not found")
@@ -283,20 +270,44 @@ func c16Envelope(c *core.Ctx) {
 		recv := recvVar(fd)
 		ld := core.NewLocalDefs(info, fd.Decl.Body)
 		ok := false
+		// the object handed back: a pointer variable holding a new allocation, or the
+		// address of a local declared empty (`var d2 Object` … `return &d2`)
 		var resVar *types.Var
+		byValue := false
+		baseOf := func(e ast.Expr) (*types.Var, bool) {
+			e = ast.Unparen(e)
+			if u, ok := e.(*ast.UnaryExpr); ok && u.Op == token.AND {
+				return core.VarOf(info, u.X), true
+			}
+			return core.VarOf(info, e), false
+		}
 		for _, r := range core.NewFuncFlow(fd).Flow.Returns() {
 			if len(r.Results) == 2 && !core.IsNil(info, r.Results[0]) {
-				resVar = core.VarOf(info, r.Results[0])
+				resVar, byValue = baseOf(r.Results[0])
 			}
 		}
 		if resVar != nil {
 			fresh := false
-			if d, has := ld.Before(resVar, fd.Decl.Body.End()); has && d.RHS != nil && isAlloc(info, d.RHS) {
-				fresh = true
+			defs := ld.All(resVar)
+			switch {
+			case !byValue:
+				if d, has := ld.Before(resVar, fd.Decl.Body.End()); has && d.RHS != nil && isAlloc(info, d.RHS) && len(defs) == 1 {
+					fresh = true
+				}
+			case len(defs) == 1 && defs[0].RHS == nil:
+				fresh = true // var d2 T
+			case len(defs) == 1:
+				if cl, ok := ast.Unparen(defs[0].RHS).(*ast.CompositeLit); ok && len(cl.Elts) == 0 {
+					fresh = true // d2 := T{}
+				}
 			}
 			um := core.CallsTo(info, fd.Decl.Body, func(f *types.Func) bool { return core.IsFunc(f, "encoding/json", "", "Unmarshal") })
 			ma := core.CallsTo(info, fd.Decl.Body, func(f *types.Func) bool { return core.IsFunc(f, "encoding/json", "", "Marshal") })
-			if fresh && len(um) == 1 && len(ma) == 1 && core.VarOf(info, um[0].Args[1]) == resVar && core.VarOf(info, ma[0].Args[0]) == recv {
+			target := func(e ast.Expr) bool {
+				v, addr := baseOf(e)
+				return v == resVar && addr == byValue
+			}
+			if fresh && len(um) == 1 && len(ma) == 1 && target(um[0].Args[1]) && core.VarOf(info, ma[0].Args[0]) == recv {
 				if dv := core.VarOf(info, um[0].Args[0]); dv != nil {
 					if d, has := ld.Before(dv, um[0].Pos()); has && ast.Unparen(d.RHS) == ast.Expr(ma[0]) {
 						ok = true
